@@ -104,6 +104,9 @@ def run_case(work, case):
         # an absolute support namespace, confined to this case's own directory (NEVER a relative escape: '.' splits the
         # namespace, so 'x/../..' style values degenerate into the file-system root)
         case = dict(case, sn=case['sn'].replace('@ABS@', os.path.join(cdir, 'abssn')))
+    if case.get('sn') is not None:      # configuration file for the command line runs (written before any snapshot)
+        with open(os.path.join(cdir, 'sn.yaml'), 'w') as f:
+            f.write('nunavut.lang.%s:\n  support_namespace: %s\n' % (case['lang'], json.dumps(case['sn'])))
     res['sandbox'] = sandbox
     root_name = types[0][0][0]
     write_types(dsdl, types)
@@ -218,10 +221,7 @@ def run_case(work, case):
             if case.get('stem') is not None:
                 cmd += ['--namespace-output-stem', case['stem']]
             if case.get('sn') is not None:
-                cfg_file = os.path.join(cdir, 'sn.yaml')
-                with open(cfg_file, 'w') as f:
-                    f.write('nunavut.lang.%s:\n  support_namespace: %s\n' % (case['lang'], json.dumps(case['sn'])))
-                cmd += ['--configuration', cfg_file]
+                cmd += ['--configuration', os.path.join(cdir, 'sn.yaml')]
             p = subprocess.run(cmd, cwd=sandbox, stdout=subprocess.PIPE, stderr=subprocess.STDOUT, text=True, timeout=300)
             res['cli_rc'] = p.returncode
             res['cli_out'] = p.stdout[-600:]
